@@ -671,8 +671,8 @@ impl Check {
                             unreproduced += 1;
                         }
                     } else {
+                        // keep the input for a look by hand: it failed inside the fuzz target only
                         unreproduced += 1;
-                        let _ = std::fs::remove_file(&path);
                     }
                 }
                 Err(_) => unreproduced += 1,
@@ -707,6 +707,10 @@ impl Check {
                 ("crash_artefacts", Js::int(crashes.len() as i128)),
                 ("artefacts_not_reproduced_by_cli", Js::int(unreproduced)),
                 ("other_artefacts_inconclusive", Js::Arr(others.iter().map(|o| Js::str(o)).collect())),
+                (
+                    "failure_output",
+                    if crashes.is_empty() { Js::Null } else { Js::Str(stderr.lines().filter(|l| l.contains("VERIF-FUZZ-FAIL") || l.contains("ERROR:") || l.contains("panicked") || l.contains("SUMMARY")).take(8).collect::<Vec<_>>().join(" | ")) },
+                ),
             ],
         );
         let _ = std::fs::remove_dir_all(&work);
@@ -853,6 +857,8 @@ impl Check {
             ("campaigns".to_string(), Js::Arr(self.campaigns.clone())),
             ("known_findings_reobserved".to_string(), Js::Arr(known_lines)),
             ("known_findings_not_reobserved".to_string(), Js::Arr(not_seen)),
+            // the concrete keys behind wildcard entries (to see what a wildcard is covering)
+            ("known_finding_keys_observed".to_string(), Js::Obj(self.known_seen.iter().map(|(k, (n, _))| (k.clone(), Js::int(*n as i128))).collect())),
             ("threads".to_string(), Js::int(self.threads as i128)),
         ];
         for (k, v) in self.extra.drain(..) {
